@@ -2102,7 +2102,13 @@ class FlagsEnum(Adapter):
     def _emitseq(self, ksy, bitwise):
         bitstotal = self.subcon.sizeof() * 8
         seq = []
-        for i in range(bitstotal):
+        # b1 fields are taken from the stream most significant bit first, byte after byte
+        primitive = self.subcon._compileprimitivetype(ksy, bitwise)
+        if isinstance(primitive, str) and primitive.endswith("le"):
+            order = [8*k + j for k in range(bitstotal // 8) for j in reversed(range(8))]
+        else:
+            order = list(reversed(range(bitstotal)))
+        for i in order:
             value = 1<<i
             name = self.reverseflags.get(value, "unknown_%s" % i)
             seq.append(dict(id=name, type="b1", doc=hex(value), _construct_render="Flag"))
